@@ -13,3 +13,83 @@ KEYS = ['c12_count', 'c12_eft_height', 'c12_log']
 
 def units(tier, seed):
     return SP.all_units(PROPERTY, KEYS, tier) + SP.rowwise_units(KEYS, tier)
+
+
+# -- real OutputManager.get_summary_object on a light design object ------------------------------------
+def _summary_setup():
+    import ghedesigner.output as O
+    from symx import sym_floor, sym_float, sym_int
+    from symx.runner import shadow
+    shadow(O, 'floor', sym_floor)
+    shadow(O, 'int', sym_int)
+
+
+def _design(vals, n_bh, k_steps):
+    from types import SimpleNamespace as NS
+    H = vals('H')
+    coords = [(vals('x%d' % i), vals('y%d' % i)) for i in range(n_bh)]
+    eft = [vals('eft%d' % i) for i in range(k_steps)]
+    dtb = [vals('dtb%d' % i) for i in range(k_steps)]
+    times = [100.0 + 700.0 * i for i in range(k_steps)]
+    lt = [-8.5, -7.8, -7.2]
+    gf = NS(g_lts={100.0: [1.0, 2.0, 3.0]}, log_time=lt, bore_locations=coords,
+            g_function_interpolation=lambda b_over_h: ([1.0, 2.0, 3.0], 0.075, 2.0, 100.0))
+    fluid = NS(rhoCp=4.1e6, k=0.6, dynamic_viscosity=lambda: 1e-3, fluid=NS(fluid_name='WATER'), rho=998.0, mu=1e-3)
+    pipe = NS(r_out=0.0133, r_in=0.0108, s=0.03, roughness=1e-6, k=0.4, rhoCp=1.5e6)
+    bhe = NS(b=NS(H=H, r_b=0.075, D=2.0), pipe=pipe, grout=NS(k=1.0, rhoCp=3.9e6), soil=NS(k=2.0, rhoCp=2.3e6, ugt=18.3),
+             fluid=fluid, m_flow_borehole=0.3, calc_effective_borehole_resistance=lambda: 0.13, h_f=1500.0)
+    hl = NS(monthly_cl=[0] + [1.0] * 12, monthly_hl=[0] + [2.0] * 12, monthly_peak_hl=[0] + [3.0] * 12,
+            monthly_peak_hl_duration=[0] + [4.0] * 12, monthly_peak_cl=[0] + [5.0] * 12, monthly_peak_cl_duration=[0] + [6.0] * 12)
+    sp = NS(start_month=1, end_month=12, max_EFT_allowable=35.0, min_EFT_allowable=5.0, max_height=135.0, min_height=60.0)
+    ghe = NS(gFunction=gf, bhe=bhe, B_spacing=5.0, fieldType='t', fieldSpecifier='s', sim_params=sp, hybrid_load=hl,
+             times=times, dTb=dtb, hp_eft=eft, nbh=n_bh)
+    return NS(ghe=ghe, searchTracker=[['f', 1.0, 2.0, 3.0]]), H, coords, eft
+
+
+def _summary(vals, n_bh, k_steps):
+    from ghedesigner.enums import TimestepType
+    from ghedesigner.output import OutputManager
+    design, H, coords, eft = _design(vals, n_bh, k_steps)
+    om = OutputManager.__new__(OutputManager)
+    d = om.get_summary_object(design, 1.0, 'p', 'n', 'a', 'm', TimestepType.HYBRID)
+    gs, sr = d['ghe_system'], d['simulation_results']
+    checks = [gs['number_of_boreholes'] == n_bh, gs['total_drilling']['value'] == H * n_bh,
+              gs['active_borehole_length']['value'] == H]
+    mx, mn = sr['max_hp_eft']['value'], sr['min_hp_eft']['value']
+    from .search_common import conj, disj
+    checks += [mx >= v for v in eft] + [mn <= v for v in eft]
+    checks += [disj([mx == v for v in eft]), disj([mn == v for v in eft])]
+    return conj(checks)
+
+
+def summary_prop(n_bh, k_steps):
+    def fn(e):
+        def vals(name):
+            if name == 'H':
+                return e.real('H', 20, 400)
+            return e.real(name, -50, 150)
+        return _summary(vals, n_bh, k_steps)
+    return fn
+
+
+def summary_replay(n_bh, k_steps):
+    def replay(model, notes):
+        from symx.runner import restore_shadows
+        restore_shadows()
+        ok = _summary(lambda name: float(model[name]), n_bh, k_steps)
+        return not bool(ok), dict(model=model)
+    return replay
+
+
+_units_search = units
+
+
+def units(tier, seed):  # noqa: F811
+    from symx.runner import Unit
+    us = _units_search(tier, seed)
+    for n_bh, k in ([(3, 3)] if tier == 'quick' else [(3, 3), (1, 4), (6, 2)]):
+        us.append(Unit('summary_object_%dbh_%dsteps' % (n_bh, k), summary_prop(n_bh, k), summary_replay(n_bh, k), _summary_setup,
+                       ['output.py:OutputManager.get_summary_object', 'output.py:OutputManager.hours_to_month'],
+                       '%d boreholes with symbolic coordinates, height in [20,400], %d symbolic temperatures' % (n_bh, k),
+                       stubs=['design object: light namespace carrying symbolic H, coordinates, hp_eft, dTb']))
+    return us
